@@ -62,22 +62,23 @@ class G:
         return ["valf", repr(self.r.choice([1.5, -2.25, 3.0])), None]
 
     def expr(self, cols, d, hazard_ok=True):
-        """arithmetic over columns and non-negative literals: inside the fragment on which C02 proves the text denotes
-        the tree (no unary minus, no negative literal, no shifts)"""
+        """arithmetic over columns and literals of either sign, unary minus included (C02's repaired grammar)"""
         x = self.r.random()
-        if d <= 0 or x < 0.35:
-            return F(self.r.choice(cols)) if self.r.random() < 0.7 else I(self.r.choice([0, 1, 2, 3, 10]))
-        if x < 0.88:
+        if d <= 0 or x < 0.33:
+            return F(self.r.choice(cols)) if self.r.random() < 0.7 else I(self.r.choice([0, 1, 2, 3, 10, -1, -5]))
+        if x < 0.82:
             op, l, r = self.r.choice(["add", "sub", "mul", "div"]), self.expr(cols, d - 1), self.expr(cols, d - 1)
             while op == "mul" and r[0] == "arith" and r[1] == "div":
                 r = self.expr(cols, d - 1)   # x*(y/z) is rendered x*y/z: equal over the reals (C02 allows it), not under integer division
             return ["arith", op, l, r, None]
-        if x < 0.94:
+        if x < 0.90:
+            return ["neg", self.expr(cols, d - 1)]
+        if x < 0.95:
             return ["func", "ABS", [self.expr(cols, d - 1)], None]
         return ["func", "COALESCE", [self.expr(cols, d - 1), I(0)], None]
 
     def hazard_set(self, cols):
-        """C02's two meaning-changing rendering defects, as SET values (fixed templates: stable finding signatures)"""
+        """the shapes of the (repaired) C02 defects that used to change C05's observable, as SET values: regression cases"""
         f = F(self.r.choice(cols))
         return self.r.choice([["arith", "sub", f, I(-1), None], ["neg", ["arith", "add", f, I(1), None]]])
 
@@ -242,6 +243,8 @@ class G:
             v = self.value() if self.r.random() < 0.6 else ["t", self.expr(setcols, 2)]
             sets.append([c, v])
         wheres = [self.crit(cols, 2) for _ in range(self.r.choice([0, 1, 1, 1, 2]))]
+        if self.r.random() < 0.03:      # a scalar sub-query as SET value (repaired by 5249523: parenthesised)
+            sets[self.r.randrange(len(sets))][1] = ["t", ["sub", None]]
         hz = self.r.random()
         hazard = False
         if table != "t":
